@@ -66,6 +66,18 @@ fn gen(rng: &mut Rng, tier: Tier) -> Vec<Case> {
             frontier = next;
         }
     }
+    if tier == Tier::Thorough {
+        // LARGE connected runs: more than 2^16 book-ended or overlapping records in ONE run (a cap on the size of a run, a
+        // 16-bit counter); the driver checks the output-only clauses in full and cover / value at sampled breakpoints
+        for (k, n) in [(0u64, 70_000u64), (1, 66_000), (2, 9_000)] {
+            let xs: Vec<B> = (0..n).map(|i| match k {
+                0 => B { r: Rec::new("chr1", 10 * i, 10 * i + 10), v: 5 },                                   // a binned constant track
+                1 => B { r: Rec::new("chr1", 10 * i, 10 * i + 10 + if i % 1000 == 7 { 25 } else { 0 }), v: 1 + (i / 20_000) as i64 },  // steps, a few overlaps
+                _ => B { r: Rec::new(if i < 4500 { "chr1" } else { "chr2" }, 7 * (i % 4500), 7 * (i % 4500) + 9), v: if i % 2 == 0 { 3 } else { -3 } },
+            }).collect();
+            out.push(Case::new("large", enc(&xs)));
+        }
+    }
     for i in 0..(nb + nr) {
         let small = i < nb;
         let n = if small { rng.range(1, 7) as usize } else { rng.range(5, 120) as usize };
